@@ -250,56 +250,15 @@ fn c13_get_contract() {
 // offsets and does not finish (> 40 min, measured).  So the general contract is checked through a
 // recording sink: `Settings::encode` performs exactly one `put_u8/u16/u32/u64` per varint (proved: every
 // other BufMut entry point of the sink is `unreachable`), the sink keeps the k-th put in slot k (concrete
-// index), and each slot is compared with `spec_varint_enc` of the value the RFC puts there.  The real
+// index; /verif/kani/_putsink.rs), and each slot is compared with `spec_varint_enc` of the value the RFC puts there.  The real
 // `&mut [u8]` sink is used for lists of <= 2 entries below and for the Config-level harnesses in
 // kani/h3/src/config.rs (ids concrete), where an independent SETTINGS parser reads the bytes back.
 // Assumed below the function: `BufMut::put_uN` appends the N big-endian bytes (the documented `bytes`
 // contract; `VarInt::encode` on the real `&mut [u8]` is C16's c16_encode_matches_spec).
 
-const SINK_SLOTS: usize = 2 + 2 * SETTINGS_LEN;
-struct PutSink {
-    slot: [([u8; 8], usize); SINK_SLOTS],
-    n: usize,
-}
-impl PutSink {
-    fn new() -> Self {
-        PutSink { slot: [([0u8; 8], 0); SINK_SLOTS], n: 0 }
-    }
-    fn rec(&mut self, b: [u8; 8], len: usize) {
-        assert!(self.n < SINK_SLOTS);
-        self.slot[self.n] = (b, len);
-        self.n += 1;
-    }
-}
-unsafe impl BufMut for PutSink {
-    fn remaining_mut(&self) -> usize {
-        usize::MAX
-    }
-    unsafe fn advance_mut(&mut self, _cnt: usize) {
-        unreachable!("Settings::encode must only use put_u8/16/32/64")
-    }
-    fn chunk_mut(&mut self) -> &mut bytes::buf::UninitSlice {
-        unreachable!("Settings::encode must only use put_u8/16/32/64")
-    }
-    fn put_slice(&mut self, _src: &[u8]) {
-        unreachable!("Settings::encode must only use put_u8/16/32/64")
-    }
-    // big-endian by division (not `to_be_bytes`)
-    fn put_u8(&mut self, n: u8) {
-        self.rec([n, 0, 0, 0, 0, 0, 0, 0], 1)
-    }
-    fn put_u16(&mut self, n: u16) {
-        self.rec([(n / 256) as u8, (n % 256) as u8, 0, 0, 0, 0, 0, 0], 2)
-    }
-    fn put_u32(&mut self, n: u32) {
-        let b = |k: u32| ((n / (1u32 << (8 * k))) % 256) as u8;
-        self.rec([b(3), b(2), b(1), b(0), 0, 0, 0, 0], 4)
-    }
-    fn put_u64(&mut self, n: u64) {
-        let b = |k: u32| ((n / (1u64 << (8 * k))) % 256) as u8;
-        self.rec([b(7), b(6), b(5), b(4), b(3), b(2), b(1), b(0)], 8)
-    }
-}
+#[path = "/verif/kani/_putsink.rs"]
+mod putsink;
+use putsink::PutSink;
 
 macro_rules! for8 {
     ($i:ident, $body:block) => {{
